@@ -21,7 +21,7 @@ LEVEL_NOTE = "Trusted: Coq kernel, generated tables."
 EXHAUSTIVE = True
 
 PREFIXES = ["use", "not", "active", "not_active", "only"]
-CATS = ["os", "browser.ver"]
+CATS = ["os", "browser.ver", "py.feature.x_y"]        # categories without, with one and with several dots
 VALUES = ["a", "b", "10", "yes"]
 ORDINARY = ["wip", "use.without_os=a", "use.with_=x", "not.with_os", "use.with_os.=a", "xuse.with_os=a", "use.with_os=a=b"]
 OPS = {"eq": operator.eq, "ge": operator.ge, "le": operator.le, "lt": operator.lt}
